@@ -23,6 +23,7 @@ pub mod c18;
 pub mod c19;
 pub mod c20;
 pub mod faultvar;
+pub mod mirismoke;
 pub mod sessmode;
 pub mod stdio;
 
@@ -126,6 +127,7 @@ pub fn run(args: &Args) -> J {
         "c13" => c13::run(args, &mut rep),
         "c14" => c14::run(args, &mut rep),
         "stdio" => stdio::run(args, &mut rep),
+        "mirismoke" => mirismoke::run(args, &mut rep),
         "c14fault" => faultvar::run_c14(args, &mut rep),
         "c12fault" => faultvar::run_c12(args, &mut rep),
         "c18" => c18::run(args, &mut rep),
